@@ -521,14 +521,17 @@ class Report:
     def trust(self, *items):
         self.trusted.update(items)
 
-    def corroborate(self, rule, by):
+    def corroborate(self, rule, by, only=None):
         """`rule` is a structural (shape-matching) rule whose clause is ALSO decided, on the current source, by the
         exploration rule `by` in this run.  A failure of `rule` that `by` does not confirm means the code has a shape
         the matcher does not recognise (renamed local, extracted helper, inverted branch): reported as analysis-broken
         (exit 2), not as a violation.  A failure that `by` confirms stays a violation."""
         if not hasattr(self, 'corroborated'):
             self.corroborated = {}
+            self.corroborated_only = {}
         self.corroborated[rule] = by
+        if only is not None:
+            self.corroborated_only[rule] = only      # predicate on the violation: which constructs the exploration covers
 
     def corroborate_floor(self, prefix, by):
         """an instance floor / anchor binding of a corroborated shape rule (broken-messages starting with `prefix`): when the
@@ -557,7 +560,8 @@ class Report:
         keep = []
         for v in self.violations:
             by = cor.get(v['rule'])
-            if by is None:
+            only_ = getattr(self, 'corroborated_only', {}).get(v['rule'])
+            if by is None or (only_ is not None and not only_(v)):
                 keep.append(v)
                 continue
             by_failed = any(w['rule'] == by for w in self.violations)
